@@ -571,82 +571,69 @@ Definition assign (st : state) (h : heap) (x : var) (v : val) : res (state * rou
 Definition target_ok (infn : bool) (st : state) (x : var) : bool :=
   if infn then Nat.eqb x param_var || (match lookup (sstore st) x with Some _ => true | None => false end) else true.
 
+(* x = [e1,...,en]: evalExpressions builds result := make([]Object, 0, n) and appends each value; then NewArray *)
+Definition arr_literal (c : cfg) (o : oracle) (h : heap) (vs : list val) : res (heap * val) :=
+  let (h1, sl) := make_arr h (length vs) in
+  '(h2, sl2) <- go_append o h1 sl vs ;;
+  v <- new_array c h2 sl2 ;;
+  Ok (h2, v).
+
+(* x = {k1:e1,...}: evalMapLiteral: NewMapSize(n) then Set of each pair *)
+Definition map_literal (c : cfg) (o : oracle) (h : heap) (vs : list (Z * val)) : res (heap * val) :=
+  let (h1, m0) := new_map_size c h (length vs) in set_all c o h1 m0 vs.
+
+(* x = <value computed in heap h1> *)
+Definition finish (infn : bool) (st : state) (x : var) (r : res (heap * val)) : res (state * rout) :=
+  '(h1, v) <- r ;;
+  if negb (target_ok infn st x) then Dom else assign st h1 x v.
+
+Definition val_slice (c : cfg) (h : heap) (yv : val) (l r : Z) : res (heap * val) :=
+  match yv with
+  | VInt _ => Err
+  | _ =>
+    n <- val_len h yv ;;
+    '(l', r') <- range_norm n l r ;;
+    match yv with
+    | VArrS _ | VArrB _ => arr_slice c h yv l' r'
+    | VMapS _ | VMapB _ => map_range c h yv l' r'
+    | _ => Ok (h, VNil)
+    end
+  end.
+
+Definition val_rest (c : cfg) (h : heap) (yv : val) : res (heap * val) :=
+  match yv with
+  | VArrS _ | VArrB _ => arr_rest c h yv
+  | VMapS _ | VMapB _ => map_rest c h yv
+  | VNil => Ok (h, VNil)
+  | VInt _ => Err
+  end.
+
+(* evalInfixExpression for * with an integer right operand *)
+Definition val_times (c : cfg) (o : oracle) (h : heap) (lv : val) (n : Z) : res (heap * val) :=
+  match lv with
+  | VArrS _ | VArrB _ => arr_repeat c o h lv n
+  | VInt a => if int64_ok (a * n) then Ok (h, VInt (a * n)%Z) else Dom
+  | _ => Err
+  end.
+
 Definition prim_step (c : cfg) (o : oracle) (infn : bool) (st : state) (p : prim) : res (state * rout) :=
   let h := sheap st in
   let s := sstore st in
   match p with
-  | PArrLit x es =>
-    vs <- eval_elems s es ;;
-    if negb (target_ok infn st x) then Dom else
-    (* evalExpressions: result := make([]Object, 0, len(exps)) then append of each value *)
-    let (h1, sl) := make_arr h (length es) in
-    '(h2, sl2) <- go_append o h1 sl vs ;;
-    v <- new_array c h2 sl2 ;;
-    assign st h2 x v
-  | PMapLit x kvs =>
-    vs <- eval_pairs s kvs ;;
-    if negb (target_ok infn st x) then Dom else
-    let (h1, m0) := new_map_size c h (length kvs) in
-    '(h2, m) <- set_all c o h1 m0 vs ;;
-    assign st h2 x m
-  | PCopy x y =>
-    v <- eval_elem s (EVar y) ;;
-    if negb (target_ok infn st x) then Dom else
-    assign st h x v
+  | PArrLit x es => finish infn st x (vs <- eval_elems s es ;; arr_literal c o h vs)
+  | PMapLit x kvs => finish infn st x (vs <- eval_pairs s kvs ;; map_literal c o h vs)
+  | PCopy x y => finish infn st x (v <- eval_elem s (EVar y) ;; Ok (h, v))
   | PIdxSet x i e =>
     v <- eval_elem s e ;;
     xv <- eval_elem s (EVar x) ;;
     '(h1, nv) <- val_idx_set c o h xv i v ;;
     Ok (mkst h1 (bind_var s x nv), RV v)
   | PPlus x y e =>
-    lv <- eval_elem s (EVar y) ;;
-    rv <- eval_elem s e ;;
-    '(h1, v) <- val_plus c o h lv rv ;;
-    if negb (target_ok infn st x) then Dom else
-    assign st h1 x v
-  | PRepeat x y n =>
-    lv <- eval_elem s (EVar y) ;;
-    match lv with
-    | VArrS _ | VArrB _ =>
-      '(h1, v) <- arr_repeat c o h lv n ;;
-      if negb (target_ok infn st x) then Dom else
-      assign st h1 x v
-    | VInt a =>
-      if negb (int64_ok (a * n)) then Dom else
-      if negb (target_ok infn st x) then Dom else
-      assign st h x (VInt (a * n)%Z)
-    | _ => Err
-    end
-  | PSlice x y l r =>
-    yv <- eval_elem s (EVar y) ;;
-    match yv with
-    | VInt _ => Err
-    | _ =>
-      n <- val_len h yv ;;
-      '(l', r') <- range_norm n l r ;;
-      '(h1, v) <- (match yv with
-                   | VArrS _ | VArrB _ => arr_slice c h yv l' r'
-                   | VMapS _ | VMapB _ => map_range c h yv l' r'
-                   | _ => Ok (h, VNil)
-                   end) ;;
-      if negb (target_ok infn st x) then Dom else
-      assign st h1 x v
-    end
-  | PRest x y =>
-    yv <- eval_elem s (EVar y) ;;
-    '(h1, v) <- (match yv with
-                 | VArrS _ | VArrB _ => arr_rest c h yv
-                 | VMapS _ | VMapB _ => map_rest c h yv
-                 | VNil => Ok (h, VNil)
-                 | VInt _ => Err
-                 end) ;;
-    if negb (target_ok infn st x) then Dom else
-    assign st h1 x v
-  | PGet x y i =>
-    yv <- eval_elem s (EVar y) ;;
-    v <- val_get h yv i ;;
-    if negb (target_ok infn st x) then Dom else
-    assign st h x v
+    finish infn st x (lv <- eval_elem s (EVar y) ;; rv <- eval_elem s e ;; val_plus c o h lv rv)
+  | PRepeat x y n => finish infn st x (lv <- eval_elem s (EVar y) ;; val_times c o h lv n)
+  | PSlice x y l r => finish infn st x (yv <- eval_elem s (EVar y) ;; val_slice c h yv l r)
+  | PRest x y => finish infn st x (yv <- eval_elem s (EVar y) ;; val_rest c h yv)
+  | PGet x y i => finish infn st x (yv <- eval_elem s (EVar y) ;; v <- val_get h yv i ;; Ok (h, v))
   | PDel x k =>
     match lookup s x with
     | None => Ok (st, RB false)
@@ -832,51 +819,35 @@ Definition p_target_ok (infn : bool) (s : list (var * pval)) (x : var) : bool :=
 Definition p_assign (s : list (var * pval)) (x : var) (v : pval) : res (list (var * pval) * prout) :=
   Ok (bind_var s x v, PRV v).
 
+Definition p_finish (infn : bool) (s : list (var * pval)) (x : var) (r : res pval) : res (list (var * pval) * prout) :=
+  v <- r ;;
+  if negb (p_target_ok infn s x) then Dom else p_assign s x v.
+
+Definition p_times (lv : pval) (n : Z) : res pval :=
+  match lv with
+  | PArr l => if (n <? 0)%Z then Err else Ok (PArr (repeat_list l (Z.to_nat n)))
+  | PInt a => if int64_ok (a * n) then Ok (PInt (a * n)%Z) else Dom
+  | _ => Err
+  end.
+
+Definition p_map_literal (vs : list (Z * pval)) : pval :=
+  PMap (fold_left (fun m kv => kv_set m (fst kv) (snd kv)) vs []).
+
 Definition p_prim_step (infn : bool) (s : list (var * pval)) (p : prim) : res (list (var * pval) * prout) :=
   match p with
-  | PArrLit x es =>
-    vs <- p_eval_elems s es ;;
-    if negb (p_target_ok infn s x) then Dom else p_assign s x (PArr vs)
-  | PMapLit x kvs =>
-    vs <- p_eval_pairs s kvs ;;
-    if negb (p_target_ok infn s x) then Dom else
-    p_assign s x (PMap (fold_left (fun m kv => kv_set m (fst kv) (snd kv)) vs []))
-  | PCopy x y =>
-    v <- p_eval_elem s (EVar y) ;;
-    if negb (p_target_ok infn s x) then Dom else p_assign s x v
+  | PArrLit x es => p_finish infn s x (vs <- p_eval_elems s es ;; Ok (PArr vs))
+  | PMapLit x kvs => p_finish infn s x (vs <- p_eval_pairs s kvs ;; Ok (p_map_literal vs))
+  | PCopy x y => p_finish infn s x (p_eval_elem s (EVar y))
   | PIdxSet x i e =>
     v <- p_eval_elem s e ;;
     xv <- p_eval_elem s (EVar x) ;;
     nv <- p_idx_set xv i v ;;
     Ok (bind_var s x nv, PRV v)
-  | PPlus x y e =>
-    lv <- p_eval_elem s (EVar y) ;;
-    rv <- p_eval_elem s e ;;
-    v <- p_plus lv rv ;;
-    if negb (p_target_ok infn s x) then Dom else p_assign s x v
-  | PRepeat x y n =>
-    lv <- p_eval_elem s (EVar y) ;;
-    match lv with
-    | PArr l =>
-      if (n <? 0)%Z then Err else
-      if negb (p_target_ok infn s x) then Dom else p_assign s x (PArr (repeat_list l (Z.to_nat n)))
-    | PInt a =>
-      if negb (int64_ok (a * n)) then Dom else
-      if negb (p_target_ok infn s x) then Dom else p_assign s x (PInt (a * n)%Z)
-    | _ => Err
-    end
-  | PSlice x y l r =>
-    yv <- p_eval_elem s (EVar y) ;;
-    v <- p_slice yv l r ;;
-    if negb (p_target_ok infn s x) then Dom else p_assign s x v
-  | PRest x y =>
-    yv <- p_eval_elem s (EVar y) ;;
-    v <- p_rest yv ;;
-    if negb (p_target_ok infn s x) then Dom else p_assign s x v
-  | PGet x y i =>
-    yv <- p_eval_elem s (EVar y) ;;
-    v <- p_get yv i ;;
-    if negb (p_target_ok infn s x) then Dom else p_assign s x v
+  | PPlus x y e => p_finish infn s x (lv <- p_eval_elem s (EVar y) ;; rv <- p_eval_elem s e ;; p_plus lv rv)
+  | PRepeat x y n => p_finish infn s x (lv <- p_eval_elem s (EVar y) ;; p_times lv n)
+  | PSlice x y l r => p_finish infn s x (yv <- p_eval_elem s (EVar y) ;; p_slice yv l r)
+  | PRest x y => p_finish infn s x (yv <- p_eval_elem s (EVar y) ;; p_rest yv)
+  | PGet x y i => p_finish infn s x (yv <- p_eval_elem s (EVar y) ;; p_get yv i)
   | PDel x k =>
     match lookup s x with
     | None => Ok (s, PRB false)
